@@ -214,6 +214,8 @@ def run(P, R):
     R.check(r6, order == ['USER', 'CORE', 'STRICT', 'LIST'], 'failure causes are considered in the order USER > CORE > '
             'STRICT > LIST', 'failure-strategy|precedence', u.loc(), '_check_failure_strategy takes the first non-None '
             'failure in the order %s (documented: USER > CORE > STRICT > LIST)' % (order or 'not recognised'))
+    from .c18 import rule_check_options
+    rule_check_options(P, R, r6)
     extra = sorted(str(k) for k in seen if k not in want and k is not None)
     R.check(r6, not extra, 'no other state decided by the failure strategy', 'failure-strategy|extra', u.loc(),
             '_check_failure_strategy also decides %s' % extra)
@@ -302,6 +304,9 @@ def run(P, R):
         R.check(r7, ok, 'a Slave stays in %s only while its Master does, else FINAL' % own, 'progress|%s-slave' % cname,
                 u.loc(), '%s._slave_next returns %s / stays under other facts than "Master in %s"' %
                 (cname, sorted(map(str, d)), own))
+    from .c05 import rule_conflict_scan
+    rule_conflict_scan(P, R, r7)
+
     # ---------------------------------------------------------------- R8
     r8 = R.rule('R8', 'must-call under fact', 'no start or stop job stays pending on a lost instance: both _common_next '
                 'forward the lost instances to Starter and Stopper, every command targeting a lost instance is removed '
